@@ -194,6 +194,12 @@ def predict(model, ev):
     raise ValueError("unknown event %r" % (ev,))
 
 
+_MERGE_RANK = ["conflict:two-locations", "conflict:other-offset",
+               "offset-known+name-new",
+               "name-known+name-new+offset-new", "name-known+name-new+offset-same", "name-known+name-new",
+               "name-known+offset-new", "name-known+offset-same", "name-known", "offset-known", "new", "anonymous"]
+
+
 def predict_merge(model, other):
     """Return (skeleton, outcome, new_model, n_existing) - new locations are appended after index n_existing."""
     m = [list(e) for e in model]
@@ -238,9 +244,14 @@ def predict_merge(model, other):
             m[t][2] = True
         if off is not None:
             m[t][1] = off
-    order = ["conflict:two-locations", "conflict:other-offset"]
-    sk = "merge(%s)" % ("+".join(sorted(kinds - {"new", "anonymous"}, key=lambda k: (k not in order, k))) or
-                        ("new-only" if "new" in kinds else ("anonymous-only" if kinds else "empty")))
+    # skeleton = the most demanding kind of foreign location present (a pure case of every kind exists in the
+    # search, so a lower-ranked kind that fails alone still gets its own signature)
+    top = "empty"
+    for k in _MERGE_RANK:
+        if k in kinds:
+            top = k
+            break
+    sk = "merge(%s)" % top
     if outcome == "raise":
         return sk, "raise", model, n0
     return sk, "ok", m, n0
@@ -525,8 +536,6 @@ def _apply_plain(st, ev):
                 probs.append(("%s:returned-location-lacks-request" % sk,
                               "%s returned %r with names %r offset %r" % (ctx, got, sorted(gn), go)))
         return probs
-    if got is not None:
-        probs.append(("%s:returned-value" % sk, "%s returned %r, expected None" % (ctx, got)))
     if kind == "remove":
         st.removed = st.removed + [st.locs[ev[1]]]
         st.locs = st.locs[:ev[1]] + st.locs[ev[1] + 1:]
@@ -631,7 +640,7 @@ def invariant(st):
                 bad("loc_keys", "loc_keys = %r, expected %r" % (sorted(db.loc_keys, key=repr), st.locs))
             for k, e in zip(st.locs, m):
                 g = db.get_location_names(k)
-                if g != e[0] or not isinstance(g, frozenset):
+                if g != e[0]:
                     bad("get_location_names", "get_location_names(%r) = %r, expected %r" % (k, g, sorted(e[0])))
                 g = db.get_location_offset(k)
                 if g != e[1]:
@@ -688,6 +697,10 @@ def canon(st):
 
 
 def events(st):
+    if len(st.model) > _CFG["cap"]:
+        # only reachable behind a reported divergence (e.g. a rejected merge that imported half of `other`):
+        # the state is outside the bounds, it is checked but not expanded
+        return []
     return model_events(st.model, _CFG, _others())
 
 
